@@ -81,6 +81,18 @@ class GuardUnit:
         gi, gst = guards[0]
         ob("guard:it-precedes-the-parent-constructor-call(solver creation)", bool(supers) and gi < min(supers), dict(guard_stmt=gi, super_stmt=supers[:1]), gst.lineno)
         ob("guard:no-return-before-it", not [r for r in returns if r < gi], line=gst.lineno)
+        # data flow: the value tested by the guard is the caller's k: before the guard self.k may only be assigned from the parameter k,
+        # or inside an `if ... is None:` block (documented default k = width); any other assignment (e.g. k := len(weights superset)) would
+        # let an invalid k slip through
+        bad = []
+        for i, st2 in enumerate(fn.body[:gi]):
+            for n in ast.walk(st2):
+                if isinstance(n, ast.Assign) and any(isinstance(t, ast.Attribute) and t.attr == "k" and isinstance(t.value, ast.Name) and t.value.id == "self" for t in n.targets):
+                    from_param = isinstance(n.value, ast.Name) and n.value.id == "k"
+                    in_none_default = isinstance(st2, ast.If) and any(isinstance(c2, ast.Compare) and any(isinstance(o, ast.Is) for o in c2.ops) for c2 in ast.walk(st2.test))
+                    if not (from_param or in_none_default):
+                        bad.append(n.lineno)
+        ob("guard:the-guarded-value-is-the-constructor-argument-k", not bad, dict(other_assignments_to_self_k_before_the_guard=bad), gst.lineno)
         # symbolic execution of the real guard statement
         mod = ast.Module(body=[ast.FunctionDef(name="__guard", args=ast.arguments(posonlyargs=[], args=[ast.arg("self"), ast.arg("k")], kwonlyargs=[], kw_defaults=[], defaults=[]),
                                                body=[gst, ast.Return(ast.Constant("passed"))], decorator_list=[], lineno=gst.lineno, col_offset=0, end_lineno=gst.end_lineno, end_col_offset=0)], type_ignores=[])
